@@ -469,7 +469,7 @@ Definition set_large (attr : Z) (l : bool) : Z :=
 
 (* SetSize(size, resize) : new ext and attr *)
 Definition set_size (attr size : Z) (resize : bool) : Z * Z :=
-  if 16777215 <? size then ((if resize then size + 8 else size), set_large attr true)
+  if 16777215 <=? size then ((if resize then size + 8 else size), set_large attr true)
   else (size, set_large attr false).
 
 Definition create_pad_file (pol size : Z) : outcome bytes :=
